@@ -240,6 +240,44 @@ func validSpec(n *engine.Node) bool {
 
 func (x *fleetExec) newSketch(n *engine.Node, m mapping.IndexMapping) sk {
 	prov := providerFor(n.Store, n.N)
+	if n.Ctor {
+		// the convenience constructors and providers of the library, where one exists for this shape
+		switch n.Store {
+		case refmodel.Dense:
+			prov = store.DenseStoreConstructor
+		case refmodel.Sparse:
+			prov = store.SparseStoreConstructor
+		case refmodel.Paginated:
+			prov = store.BufferedPaginatedStoreConstructor
+			if n.ID%2 == 0 {
+				prov = store.DefaultProvider
+			}
+		}
+		if n.Map == "log" && !n.ByGam {
+			var s sk
+			var err error
+			a := float64(n.Alpha)
+			switch {
+			case n.Role == "sketch" && n.Store == refmodel.Dense:
+				s, err = ddsketch.LogUnboundedDenseDDSketch(a)
+			case n.Role == "sketch" && n.Store == refmodel.CLow:
+				s, err = ddsketch.LogCollapsingLowestDenseDDSketch(a, n.N)
+			case n.Role == "sketch" && n.Store == refmodel.CHigh:
+				s, err = ddsketch.LogCollapsingHighestDenseDDSketch(a, n.N)
+			case n.Role == "sketch" && n.Store == refmodel.Paginated:
+				s, err = ddsketch.NewDefaultDDSketch(a)
+			case n.Role == "exact" && n.Store == refmodel.Paginated:
+				s, err = ddsketch.NewDefaultDDSketchWithExactSummaryStatistics(a)
+			}
+			if err != nil {
+				x.fail("accepts-valid", "construct/"+n.Role+"/"+n.Store, "a convenience constructor refused a valid relative accuracy: "+err.Error(), "a sketch", err.Error())
+			}
+			if s != nil && !isNilSk(s) {
+				x.st.Probe("built-by-convenience-constructor")
+				return s
+			}
+		}
+	}
 	if n.Role == "exact" {
 		return ddsketch.NewDDSketchWithExactSummaryStatistics(m, prov)
 	}
@@ -265,6 +303,16 @@ func (x *fleetExec) addNode(n engine.Node) *knode {
 	x.nodes[n.ID] = k
 	x.order = append(x.order, n.ID)
 	return k
+}
+
+func isNilSk(s sk) bool {
+	switch v := s.(type) {
+	case *ddsketch.DDSketch:
+		return v == nil
+	case *ddsketch.DDSketchWithExactSummaryStatistics:
+		return v == nil
+	}
+	return s == nil
 }
 
 func (k *knode) each(f func(s sk)) {
